@@ -2,8 +2,10 @@
 the text of properties C05/C07.  accept(text, ext) -> (True, [call words]) | (False, None)."""
 from props.aspif_ref import Tok, Reject, lst, hexs, I32MAX, U32MAX
 
-def accept(text, ext):
-    try: return True, _parse(text, ext)
+def accept(text, ext, amax=None):
+    """amax: the reader's atom limit (ProgramReader::setMaxVar) for the atoms of rules; symbol table, compute statement and external
+    section are read against the fixed 2^31-1"""
+    try: return True, _parse(text, ext, amax)
     except Reject: return False, None
 
 def _body(t):
@@ -29,11 +31,12 @@ def _eol(t):
     elif t.i < len(x) and x[t.i] == 10: t.i += 1
     else: raise Reject("newline expected")
 
-def _parse(text, ext):
+def _parse(text, ext, amax=None):
     if not text or not (48 <= text[0] <= 57): raise Reject("format")
     inc = text[0] == 57
     if inc and not ext: raise Reject("ext")
     t = Tok(text)
+    if amax is not None: t.amax = amax
     calls = ["I1" if inc else "I0"]
     while True:
         calls.append("B")
